@@ -132,6 +132,32 @@ def explore(ctx, depth):
         ctx.check({'clause': 'arbitrary', 'pitch': s, 'interval_value': v, 'direction': d}, call(lambda: tr(s, v, direction=d)), r['model'], None,
                   nontrivial=False, what='transpose of arbitrary text')
     ctx.exhaustive = True
+    # pitch objects handed out by the importers are the caller's: editing them must not change what the same spellings mean afterwards
+    # (round 6, C09_r6_2: `import_pitch` memoised per spelling and returned the cached object)
+    from kernpy.core.pitch_models import HumdrumPitchImporter, AmericanPitchImporter
+    sample = [(s, n, d) for s in ('c', 'BB-', 'ee#', 'CC--', 'g') for n in ('m2', 'P5', 'A4', 'd2', 'octave') for d in ('up', 'down')]
+    def outcomes():
+        return [call(lambda: tr(s, byname[n], direction=d)) for (s, n, d) in sample]
+    before = outcomes()
+    def edit():
+        for imp in (HumdrumPitchImporter(), HumdrumPitchImporter()):
+            for s in ('c', 'BB-', 'ee#', 'CC--', 'g', 'd'):
+                p = imp.import_pitch(s)
+                p.octave = p.octave + 1
+                p.name = 'B'
+        ai = AmericanPitchImporter()
+        for s in ('C4', 'B-2', 'E#5'):
+            p = ai.import_pitch(s)
+            p.octave = p.octave + 2
+        return True
+    call(edit)
+    after = outcomes()
+    ctx.seen({'clause': 'imported pitch objects edited by the caller'}, True)
+    if after != before:
+        k = next(i for i, (x, y) in enumerate(zip(before, after)) if x != y)
+        ctx.fail({'clause': 'the same transpositions after the caller edited pitch objects it had imported', 'pitch': sample[k][0], 'interval': sample[k][1],
+                  'direction': sample[k][2]},
+                 'a transposition gives another result after the caller edited pitch objects handed out by the importers', impl=after[k], expected=before[k])
 
 
 def replay(ctx, payload):
